@@ -24,10 +24,10 @@ PROPS = {
            GEN + "non-trivial = history non-empty and at least one reference site",
            "The loop bodies of reorganise_generic / get_mapping_generic are translated from /repo/src/ir/module/mod.rs into Gallina on every check (Gen/GenReorg.v) and proved equal, for all arguments, to the model's rstep / reorganise / mapping (C06_translated_reorganise_is_the_model), so the index-space theorems speak about the code as it is now. Proof on the model: a well-formedness invariant of the three index spaces is preserved by every edit, and after ANY history, with no premise left, every live id is mapped to the index at which Wasm's index rule finds that very entity in the emitted module (Proofs/ReidxInv.v), on top of the closed form of reorganise_generic and the id-map theorems. What the model cannot carry (which reference kinds the real encoder rewrites, validity of the bytes) is decided per history by evaluating, in Coq, "
            "the abstract handle specification against the decoded real output (every function reference kind, import-section order via Wasm's index rule, validity), with no known class left (D02 -- import section order vs index order --, D05 -- element expression items / offsets and table initialisers never re-indexed --, D06 / D26 -- deleted items that stayed in the index space -- and D07 -- ImportsID used as FunctionID -- are repaired: C06_former_D02_witness_holds, C06_former_D05_witness_holds, C06_former_D06_witness_holds, C09_former_D26_witness_holds, C10_former_D07_witness_holds)."),
- "C07": mk("C07", ["C07_index_space_closed_form", "C07_mapping_position", "C07_global_operator_tables_exact", "C07_wf_is_an_invariant_of_every_edit", "C07_wf_holds_of_every_base_module", "C07_binding_after_any_history", "C07_binding_on_the_emitted_module"],
+ "C07": mk("C07", ["C07_index_space_closed_form", "C07_mapping_position", "C07_global_operator_tables_exact", "C07_wf_is_an_invariant_of_every_edit", "C07_wf_holds_of_every_base_module", "C07_binding_after_any_history", "C07_binding_on_the_emitted_module", "C07_returned_id_stays_bound"],
            GEN + "biased to globals (global.get in code / initialisers / data offsets, global exports)",
            "Proof on the model (wf invariant over every edit, binding after any history, no premise left: Proofs/ReidxInv.v; shared index-space theorems) + per-history evaluation of the handle specification for every global reference kind; no known class left (D03 -- global exports copied -- is repaired: C07_former_D03_witness_holds; so are D05, D06 / D26 and D24 -- id collision after an iterator-level add_global: C07_former_D24_witness_holds)."),
- "C08": mk("C08", ["C08_index_space_closed_form", "C08_mapping_position", "C08_every_memory_operator_is_reindexed", "C08_memory_tables_exact", "C08_wf_is_an_invariant_of_every_edit", "C08_wf_holds_of_every_base_module", "C08_binding_after_any_history", "C08_binding_on_the_emitted_module"],
+ "C08": mk("C08", ["C08_index_space_closed_form", "C08_mapping_position", "C08_every_memory_operator_is_reindexed", "C08_memory_tables_exact", "C08_wf_is_an_invariant_of_every_edit", "C08_wf_holds_of_every_base_module", "C08_binding_after_any_history", "C08_binding_on_the_emitted_module", "C08_returned_id_stays_bound"],
            GEN + "biased to memories (i32.load/i64.store/memory.size/grow/fill/copy/v128.load/i32.atomic.load on every memory, memory exports, active data segments)",
            "Proof on the model (wf invariant over every edit, binding after any history, no premise left: Proofs/ReidxInv.v; shared index-space theorems) + per-history evaluation for every memory reference kind. The operator-table theorem (every one of the 619 operators of the pinned wasmparser that carries a memory index is classified and rewritten) is proved over tables the translator regenerates from /repo/src/ir/wrappers.rs on every check (it was false before the repair of D04)."),
  "C09": mk("C09", ["C09_deleted_survivors", "C09_live_items_kept", "C09_dangling_reference_is_loud", "C09_index_space_is_exactly_the_live_items", "C09_deleted_ids_are_unmapped", "C09_wf_reached_by_every_history", "C09_index_space_total"],
